@@ -1678,7 +1678,9 @@ def prof_manifest_corners(g, n):
             d["x_omit"] = [g.pick(required)]
         else:
             k = g.pick(present)
-            d["x_retype"] = {mkey.get(k, k): g.pick(WRONG)}
+            # (a string is a legitimate value for `target`: it would name another object, which the name oracle of the case
+            # does not know - only values of the wrong TYPE there)
+            d["x_retype"] = {mkey.get(k, k): g.pick([w for w in WRONG if not (k == "target" and isinstance(w, str))])}
         adef = {"config": cfg, "objects": [blk, buf, ref]}
         for syn in ("json", "yaml", "toml"):
             out.append(case(copy.deepcopy(adef), syn, "four", group=20_000_000 + i, want_mir=True, want_tokens=True, tree_only=True,
